@@ -188,6 +188,14 @@ def estimate_mixture_weight(
         weight = np.mean(
             affiliation, axis=weight_constant_axis, keepdims=True
         )
+        # Columns of the affiliation that are all zero (every source inactive
+        # in a source activity mask) do not contribute. Renormalize such that
+        # the weights sum to one over the classes as in the saliency branch.
+        weight = weight / np.maximum(
+            np.sum(weight, axis=-2, keepdims=True)
+            * (affiliation.shape[-2] / weight.shape[-2]),
+            np.finfo(weight.dtype).tiny,
+        )
     else:
         masked_affiliation = affiliation * saliency[..., None, :]
         weight = _unit_norm(
